@@ -2,6 +2,7 @@ import Marwood.Vm.RunLoop
 import Marwood.Lemmas.SimRefl
 import Marwood.Lemmas.SimObs
 import Marwood.Lemmas.GoodDemo
+import Marwood.Lemmas.VmOkDemo
 /-!
 # C13 — sliced execution is equivalent to uninterrupted execution
 
@@ -451,6 +452,54 @@ example (bs : List Nat) (hpos : ∀ b ∈ bs, 1 ≤ b) (hsum : 1 ≤ bs.sum) :
 
 /-- a compiler that always fails satisfies the law -/
 example : CompGood (fun _ _ => .err .invalidSyntax) := ⟨fun _ _ _ _ _ _ _ h => (by cases h)⟩
+
+/-! ### T13.3 without `StackDiscAlong`: the stack discipline is a theorem (WF-stack over the value-typed verifier)
+
+`StackDiscAlong` is discharged by `Lemmas/StackDiscOfWFS.lean`: `stackDisc_of_wfs` derives all six clauses of
+`StackDisc` from WF-stack over the value-typed bytecode verifier, and `vmOk_reaches` shows that
+`VmOk = GoodI ∧ WFS` is an invariant of the REAL concrete machine. Hypotheses that remain: the laws of the
+unmodelled parts (`ExtLaws`, `ExtGood`, `ExtCodeLawsV`), `VmOk` of the INITIAL state, the physical bound
+`SizeBounded`, and `CalleeOkAlong` (the callee guard passes at every reachable CALL / TCALL / ENTER site:
+the oracle `callee-ok` of the `bytecode-verifier` stream). -/
+
+/-- the always-failing parameter set satisfies the code law vacuously -/
+theorem failingExt_codeLawsV : ExtCodeLawsV failingExt :=
+  ⟨fun _ h => (by cases h), fun _ h => (by cases h), fun _ h => (by cases h)⟩
+
+/-- **T13.3 from the bundled invariant of the initial state** -/
+theorem sliced_value_eq_uninterrupted_wf (ext : ExtOps) (force : Bool) (o : ExtLaws ext) (eg : ExtGood ext)
+    (ecl : ExtCodeLawsV ext) (s0 : St CHeap) (h0 : VmOk ext ecl s0) (sb : SizeBounded (machine ext force) s0)
+    (ca : CalleeOkAlong (machine ext force) s0) (k : Nat) (t' : St CHeap)
+    (hk : pureN (machine ext force) k s0 = .done t')
+    (bs : List Nat) (hpos : ∀ b ∈ bs, 1 ≤ b) (hsum : k ≤ bs.sum) (fuel : Nat) :
+    ∃ s1 s2, run (machine ext force) k s0 = .done s1 ∧ runSliced (machine ext force) bs s0 = .done s2 ∧
+      resultObs fuel s1 = resultObs fuel s2 :=
+  sliced_value_eq_uninterrupted ext force o eg s0 h0.1 sb (stackDiscAlong_of_wfs force o eg h0 sb ca) k t' hk bs
+    hpos hsum fuel
+
+/-- … and for an evaluation that fails -/
+theorem sliced_error_eq_uninterrupted_wf (ext : ExtOps) (force : Bool) (o : ExtLaws ext) (eg : ExtGood ext)
+    (ecl : ExtCodeLawsV ext) (s0 : St CHeap) (h0 : VmOk ext ecl s0) (sb : SizeBounded (machine ext force) s0)
+    (ca : CalleeOkAlong (machine ext force) s0) (k : Nat) (e : Fault) (t' : St CHeap)
+    (hk : pureN (machine ext force) k s0 = .error e t')
+    (bs : List Nat) (hpos : ∀ b ∈ bs, 1 ≤ b) (hsum : k ≤ bs.sum) :
+    ∃ s1 s2, run (machine ext force) k s0 = .error e s1 ∧ runSliced (machine ext force) bs s0 = .error e s2 ∧
+      R (machine ext force) s1 t' ∧ R (machine ext force) s2 t' :=
+  sliced_error_eq_uninterrupted ext force o eg s0 h0.1 sb (stackDiscAlong_of_wfs force o eg h0 sb ca) k e t' hk bs
+    hpos hsum
+
+open Marwood.Lemmas.Good.Demo in
+/-- non-vacuity: every hypothesis holds of the demo state -/
+example : VmOk failingExt failingExt_codeLawsV (sHalt 0) ∧ SizeBounded (machine failingExt false) (sHalt 0) ∧
+    CalleeOkAlong (machine failingExt false) (sHalt 0) :=
+  ⟨sHalt_vmOk _ _, sHalt_sizeBounded _, sHalt_calleeOkAlong _⟩
+
+open Marwood.Lemmas.Good.Demo in
+example (bs : List Nat) (hpos : ∀ b ∈ bs, 1 ≤ b) (hsum : 1 ≤ bs.sum) :
+    ∃ s1 s2, run (machine failingExt false) 1 (sHalt 0) = .done s1 ∧
+      runSliced (machine failingExt false) bs (sHalt 0) = .done s2 ∧ resultObs 5 s1 = resultObs 5 s2 :=
+  sliced_value_eq_uninterrupted_wf failingExt false failingExt_laws failingExt_good failingExt_codeLawsV (sHalt 0)
+    (sHalt_vmOk _ _) (sHalt_sizeBounded _) (sHalt_calleeOkAlong _) 1 (sHalt 1) rfl bs hpos hsum 5
 
 end ConcreteInv
 
